@@ -6,7 +6,8 @@ key-verified `get` (so answers cannot depend on the MPHF's slot layout, whatever
 decision table (a k-mer is found exactly when it is a key of the consulted end index, with the specified side/flip) and find_edges'
 table, both over an index layer whose ground truth is "this probe is / is not the end k-mer of a node": key-verified look-ups answer from
 it, keyless hashes may alias an absent probe to an arbitrary node (so every unconfirmed use shows as a phantom link); the crate's own
-threads, if any, are explored as explicit schedules (each spawned closure atomic, every order of the pending ones)."""
+threads, if any, are explored as explicit schedules (each spawned closure atomic, every order of the pending ones).
+Added later: the finished graph must be the graph handed in (strandedness, vectors, packed sequences)."""
 from .. import dt_graph, structural, lemmas
 from . import common
 
